@@ -133,6 +133,9 @@ def o_C07(cases, rust, lean, V, wd):
     for i, (c, r) in enumerate(zip(cases, rust)):
         if r.startswith('panic budget') or r.startswith('crash'):
             V.failing.append((i, 'octet budget exceeded / no return: ' + r)); continue
+        l = lean[i]
+        if r.startswith('ok') and (l.startswith('err MaxRecursion') or l.startswith('err EndlessRecursion') or l.startswith('err DomainNameError')):
+            V.failing.append((i, 'a name was expanded beyond the limits (17 hops / 255 octets / no cycles): reference says ' + l)); continue
         _, cost = common.strip_cost(r)
         h = c.op.split(' ')[1]
         n = 0 if h == '-' else len(h) // 2
